@@ -39,8 +39,9 @@ def main():
         print("CHECKER-ERROR: property %s is not claimed (see MANIFEST.not_applicable)" % pid)
         return 3
     spec = PM.PROPS[pid]
-    timeout_ms = 30000 if tier == "quick" else 120000
-    quals = sorted(q for q, c in REGISTRY.items() if hasattr(c, "tags") and pid in c.tags)
+    timeout_ms = 40000 if tier == "quick" else 150000
+    quals = sorted(set([q for q, c in REGISTRY.items() if hasattr(c, "tags") and pid in c.tags]
+                       + list(spec.get("functions_all", []))))
     results = R.run_functions(quals, timeout_ms=timeout_ms, split=PM.SPLIT)
     from pvc.front import Source
     src = Source()
@@ -56,7 +57,7 @@ def main():
             undecided.append("%s: %s" % (r["qual"], r["unsupported"]))
         fuc[r["qual"]] = {"sha256_16": src.sha(r["qual"]), "paths": r["paths"], "exits": r["exits"]}
         for o in r["results"]:
-            if pid in o["tags"]:
+            if pid in o["tags"] or r["qual"] in spec.get("functions_all", []):
                 o["function"] = r["qual"]
                 obls.append(o)
     # structural checks on the ASTs (census) and pure lemmas over the contracts
@@ -85,7 +86,8 @@ def main():
     if os.path.exists(bp):
         baseline = set(json.load(open(bp)).get(pid, []))
     findings = PM.load_findings()
-    failed = [o for o in obls if o["status"] != "discharged"]
+    failed = [o for o in obls if o["status"] != "discharged" and not o["status"].startswith("known:")]
+    conditioned = [o for o in obls if o["status"].startswith("known:")]
     discharged = [o for o in obls if o["status"] == "discharged"]
     # group failures by normalised name
     groups = {}
@@ -104,6 +106,28 @@ def main():
         violations.append((name, os_))
     out_lines = []
     printed_known = set()
+    # obligations that fail outright but are discharged under the negated witness of an open finding
+    byid = {f["id"]: f for f in findings}
+    for o in conditioned:
+        f = byid.get(o["status"][6:])
+        if f is None:
+            violations.append((o["norm"], [o]))
+            continue
+        if f["id"] in printed_known:
+            continue
+        if PM.finding_present(f):
+            printed_known.add(f["id"])
+            out_lines.append("KNOWN-FINDING: property=%s %s %s" % (pid, f["id"], f["what"]))
+        else:
+            violations.append((o["norm"], [o]))
+    # findings excluded by a stated precondition of an event handler (assumed_as)
+    used_funcs = set(fuc)
+    for f in findings:
+        if f.get("status") == "open" and f.get("assumed_as") and pid in f["properties"] \
+                and f["assumed_as"].split("#")[0] in used_funcs and f["id"] not in printed_known:
+            if PM.finding_present(f):
+                printed_known.add(f["id"])
+                out_lines.append("KNOWN-FINDING: property=%s %s %s" % (pid, f["id"], f["what"]))
     for f, name, os_ in known:
         if f["id"] in printed_known:
             continue
@@ -154,7 +178,8 @@ def main():
     backends = {}
     for o in discharged:
         backends[o["backend"]] = backends.get(o["backend"], 0) + 1
-    n_known = sum(len(x[2]) for x in known if x[0]["id"] in printed_known)
+    n_known = sum(len(x[2]) for x in known if x[0]["id"] in printed_known) + \
+        sum(1 for o in conditioned if o["status"][6:] in printed_known)
     ev = {
         "property_id": pid, "tier": tier, "seed": seed, "level": spec.get("level", "proof"),
         "coverage": {
@@ -173,7 +198,8 @@ def main():
             "solver_time_s": round(sum(o["secs"] for o in obls), 2),
             "canaries": canaries,
             "known_findings": sorted(printed_known),
-            "conditioned_on": spec.get("conditioned_on", []),
+            "conditioned_on": sorted(set(spec.get("conditioned_on", [])) | printed_known),
+            "discharged_under_negated_witness": sorted(set(o["norm"] + " [" + o["status"][6:] + "]" for o in conditioned)),
             "paper_steps": spec.get("paper_steps", []),
             "bounded": spec.get("bounded", []),
             "undecided": undecided + [n for n, _ in newfail],
